@@ -99,6 +99,8 @@ def eval_terms(terms, model):
     # uninterpreted fn atoms
     for t in tm.reachable(list(terms)):
         if t.op == 'fn':
+            if tm._vname(t) not in model and t.val in tm.FN_EVAL:
+                continue                      # computed from its argument
             env[tm._vname(t)] = model.get(tm._vname(t), Fraction(0)) or Fraction(0)
     return tm.evaluate(terms, env, exact=True)
 
